@@ -33,7 +33,7 @@ func c12Events(full bool) []string {
 	for _, id := range []string{"a", "b", "c"} {
 		amts := []string{"5", "-7"}
 		if id == "a" {
-			amts = append(amts, "2^70")
+			amts = append(amts, "2^70", "-5", "0") // -5 cancels +5, 0 creates an empty trial balance
 		}
 		for _, a := range amts {
 			evs = append(evs, "addnb "+id+" "+a)
